@@ -356,12 +356,15 @@ class C20(core.Check):
                 for cls, words, want in (('instruction', m['mns'], 'variable.function.instruction'), ('macro', m['macros'], 'variable.function.macro')):
                     for w in words:
                         for form, ind, rest in ((w, '', ' 5'), (w.upper(), '', ' 5'), (w, '    ', ' 5'), (w.upper(), '\t', ' 5'),
-                                                (w, '  ', ' EQUAL_X'), (w, '  ', ' equ_k, 1')):
+                                                (w, '  ', ' EQUAL_X'), (w, '  ', ' equ_k, 1'),
+                                                # directly behind a label's colon (the label rule has consumed "c20_lbl:")
+                                                (w, 'c20_lbl:', ' 5'), (w.upper(), '.loc9:', ' 5')):
                             self.words += 1
                             line = ind + form + rest
+                            pos0 = len(ind) if ind.endswith(':') else 0
                             best = None
                             for k_, (sc, rx) in enumerate(comp):
-                                mm = rx.search(line)
+                                mm = rx.search(line, pos0)
                                 if mm is None or mm.end() == mm.start():
                                     continue
                                 key = (mm.start(), k_)
